@@ -11,6 +11,9 @@ CLAIMED = {
  'C09': ('vc-front', 'exploration', 'proptest generators: re-laid corpus with injected comments x [format] settings; oracle = token-sequence / comment-sequence equality + equal emitted SV token stream',
          'Generated-input search against a two-directional oracle (nothing dropped, nothing invented: token sequence, comment sequence, emitted SV); thousands of cases per run, shrinking to a replay file.',
          'Token witness = parser token positions plus the text between them; optional trailing commas are normalised as the property allows. Emitted-SV clause only when the file analyses cleanly on its own.', 'C09'),
+ 'C10': ('vc-front', 'exploration', 'proptest generators: token-level edits + junk bytes on corpus files, junk-rich strings, generated deep-nesting / long-run shapes parsed in a subprocess; oracle = returns Ok/Err without panic or signal, diagnostic span inside input',
+         'Generated-input search (~25 000 inputs per quick run) against the crash/termination/span oracle; pathological nesting runs in a subprocess so a stack overflow is observed as a signal and reported as a violation, not as a dead check.',
+         'Span bound = the newline-terminated copy the parser lexes. Subprocess time-outs (240 s) and SIGKILL are inconclusive (skipped), never violations. Quick tier nests to depth 2 000; 100 000 only in thorough.', 'C10'),
  'C12': ('vc-front', 'exploration', 'proptest generators: re-laid corpus with multi-byte comments/strings; oracle = source[pos..pos+len] == token text and line/column recomputed from the text',
          'Generated-input search against an independent position oracle recomputed from the raw text, for every token and comment of every generated file; one defect repaired (fix: commit), one recorded (external lexer crate).',
          'Oracle recomputes line/column by counting characters in the source; trusts only that token text is what the parser reports.', 'C12'),
